@@ -156,6 +156,8 @@ def gen_unit(rng):
                 body.append("%s(%s);" % (_case(rng, iname), ", ".join(args)))
         if rng.random() < 0.15:
             body.append("%s();" % _case(rng, rng.choice(names)))        # an invocation of something that is no instance
+        if rng.random() < 0.2:
+            body.append("i%d();" % rng.randint(0, 1))                    # an instance name of other units, declared here or not
         lines += body + ["END_FUNCTION_BLOCK"]
         out.append("\n".join(lines))
         fbs[n] = (ins, outs, inouts)
